@@ -370,6 +370,8 @@ private:
 
         ++m_used_size;
 
+        do_ttl_sort(e);
+
         do_access(e);
     }
 
@@ -384,8 +386,28 @@ private:
 
         // push to the end of the ttl list
         m_ttl_list.splice(m_ttl_list.end(), m_ttl_list, e.m_ttl_position);
+        do_ttl_sort(e);
 
         do_access(e);
+    }
+
+    /**
+     * Moves the element's ttl node, which must be the tail of the ttl list, towards the head until
+     * the list is sorted by expire time again.  The tail is already the sorted position unless
+     * update_ttl() lowered the uniform ttl since the elements in front of it were written.
+     */
+    auto do_ttl_sort(element& e) -> void
+    {
+        auto position = e.m_ttl_position;
+        while (position != m_ttl_list.begin() && m_elements[*std::prev(position)].m_expire_time > e.m_expire_time)
+        {
+            --position;
+        }
+
+        if (position != e.m_ttl_position)
+        {
+            m_ttl_list.splice(position, m_ttl_list, e.m_ttl_position);
+        }
     }
 
     auto do_erase(size_t element_idx) -> void
